@@ -1106,7 +1106,14 @@ func (c *Compiler) writeCountBytes(node *node, v string, depth int) error {
 		c.wl("for ", nk, ", ", nx, " := range ", c.fmtVnb(node, v, depth), "{")
 		c.wl("_,_=", nk, ",", nx)
 		_ = c.writeCountBytes(node.mapk, nk, depth+1)
+		mvPtr := node.mapv.ptr && node.mapv.typ != typeBasic && node.mapv.hasb
+		if mvPtr {
+			c.wl("if ", nx, "!=nil{")
+		}
 		_ = c.writeCountBytes(node.mapv, nx, depth+1)
+		if mvPtr {
+			c.wl("}")
+		}
 		c.wl("}")
 	case typeSlice:
 		if node.typn == "[]byte" {
@@ -1119,6 +1126,9 @@ func (c *Compiler) writeCountBytes(node *node, v string, depth int) error {
 				c.wl(nv, " := ", c.fmtVd(node, v, depth), "[", ni, "]")
 			} else {
 				c.wl(nv, " := &", c.fmtVd(node, v, depth), "[", ni, "]")
+			}
+			if node.slct.ptr && !c.isBuiltin(node.slct.typn) {
+				c.wl("if ", nv, "==nil{continue}")
 			}
 			_ = c.writeCountBytes(node.slct, nv, depth+1)
 			c.wl("}")
@@ -1173,6 +1183,12 @@ func (c *Compiler) writeCopy(node *node, l, r string, depth int) error {
 		c.wl("var ", lk, " ", c.fmtT(node.mapk))
 		_ = c.writeCopy(node.mapk, lk, rk, depth+1)
 		lv := "lv" + strconv.Itoa(depth)
+		if node.mapv.ptr && node.mapv.typ != typeBasic {
+			c.wl("if ", rv, "==nil{")
+			c.wl(c.fmtVd(node, l, depth), "[", lk, "]=nil")
+			c.wl("continue")
+			c.wl("}")
+		}
 		c.wl("var ", lv, " ", c.fmtT(node.mapv))
 		_ = c.writeCopy(node.mapv, lv, rv, depth+1)
 		pfx := ""
@@ -1202,6 +1218,12 @@ func (c *Compiler) writeCopy(node *node, l, r string, depth int) error {
 				c.wl(nv, " := ", c.fmtVd(node, r, depth), "[", ni, "]")
 			} else {
 				c.wl(nv, " := &", c.fmtVd(node, r, depth), "[", ni, "]")
+			}
+			if node.slct.ptr && !c.isBuiltin(node.slct.typn) {
+				c.wl("if ", nv, "==nil{")
+				c.wl(lb, "=append(", lb, ",nil)")
+				c.wl("continue")
+				c.wl("}")
 			}
 			_ = c.writeCopy(node.slct, nb, nv, depth+1)
 			pfx := ""
